@@ -173,6 +173,8 @@ type Check struct {
 	Parts       []Part
 	// Serial forces a single worker process (e.g. allocation measurements).
 	Serial bool
+	// WorkerInit runs once in every worker before the parts (e.g. install deterministic pools).
+	WorkerInit func()
 	// QuickBudget / ThoroughBudget: wall-clock guard (not an oracle) after which parts stop with exhaustive:false.
 	QuickBudget, ThoroughBudget time.Duration
 }
@@ -258,6 +260,9 @@ func Main() {
 		fmt.Sscanf(*shard, "%d/%d", &k, &n)
 		dl, _ := strconv.ParseInt(os.Getenv("VERIF_DEADLINE_UNIX"), 10, 64)
 		ctx := &Ctx{ID: ck.ID, Tier: *tier, Seed: seed, Shard: k, NShards: n, Deadline: time.Unix(dl, 0)}
+		if ck.WorkerInit != nil {
+			ck.WorkerInit()
+		}
 		res := runParts(ck, ctx)
 		enc := json.NewEncoder(os.Stdout)
 		if err := enc.Encode(res); err != nil {
@@ -518,6 +523,9 @@ func doReplay(ck *Check, path, tier string, seed int64) int {
 			return 2
 		}
 		ctx := &Ctx{ID: ck.ID, Tier: tier, Seed: seed, NShards: 1, Deadline: time.Now().Add(time.Hour)}
+		if ck.WorkerInit != nil {
+			ck.WorkerInit()
+		}
 		m1 := p.Replay(ctx, f.Violation.Case)
 		m2 := p.Replay(ctx, f.Violation.Case)
 		if m1 != m2 {
